@@ -174,10 +174,21 @@ def make_pair(r, o=None):
             if ipp == 'any':
                 ap = bp = 0
             else:
-                ap = r.choice([0, 0, 1, 22, 255, 256, 4500, 65535])
-                bp = r.choice([0, 80, 23, 1, 255, 256, 443, 65535])
+                ap = r.choice([0, 0, 1, 22, 255, 256, 4500, 65535] + ([r.randrange(1, 65536)] if o.get('wide_nets') else []))
+                bp = r.choice([0, 80, 23, 1, 255, 256, 443, 65535] + ([r.randrange(1, 65536)] if o.get('wide_nets') else []))
             if mode == 'transport' or not a_nets:
                 an, bn = None, None
+            elif o.get('wide_nets'):
+                # every prefix length: a random network inside the side's address space (and sometimes everything)
+                def rnd_net(base6, base4):
+                    if fam == 4:
+                        plen = r.choice([0, 1, 7, 8, 9, 15, 16, 17, 23, 24, 25, 30, 31, 32])
+                        return str(ipaddress.ip_network((r.getrandbits(32), plen), strict=False)) if plen < 8 else \
+                            str(ipaddress.ip_network((int(ipaddress.ip_address(base4)) | r.getrandbits(24), plen), strict=False))
+                    plen = r.choice([0, 1, 16, 47, 48, 63, 64, 65, 96, 127, 128])
+                    return str(ipaddress.ip_network((int(ipaddress.ip_address(base6)) | r.getrandbits(96), plen), strict=False)) if plen >= 16 else \
+                        str(ipaddress.ip_network((r.getrandbits(128), plen), strict=False))
+                an, bn = rnd_net('fd00:1::', '10.0.0.0'), rnd_net('fd00:2::', '11.0.0.0')
             else:
                 an = r.choice(a_nets + [None])
                 bn = r.choice(b_nets + [None])
@@ -190,6 +201,8 @@ def make_pair(r, o=None):
             continue
         idx = o.get('index_base', 0) + i + 1 if r.random() < 0.7 else r.randint(1, 2 ** 20)
         life = o.get('child_lifetime', child_life())
+        if o.get('infinite_lifetimes') and r.random() < o['infinite_lifetimes']:
+            life = -1
         ea_ = {'index': idx, 'mode': mode, 'ipsec_proto': proto, 'lifetime': life, 'ip_proto': ipp,
                'my_port': ap, 'peer_port': bp, 'integ': cia}
         eb_ = {'index': idx if r.random() < 0.5 else r.randint(1, 2 ** 20), 'mode': mode, 'ipsec_proto': proto,
@@ -227,8 +240,8 @@ def flow_for_entry(r, me, peer, ent, inside=True):
     fam_const = 2 if ent['my_net'].version == 4 else 10
 
     def pick(net, host):
-        if net.num_addresses == 1:
-            return str(net[0])
+        if net.num_addresses <= 2:
+            return str(net[r.randrange(net.num_addresses)])
         return str(net[r.randrange(1, min(net.num_addresses - 1, 2 ** 16))])
     proto = ent['ip_proto'] or r.choice([6, 17])
     sport = ent['my_port'] or r.choice([1, 255, 256, 1024, 40000, 65535])
